@@ -108,6 +108,10 @@ pub struct Sys {
     best_view: BTreeMap<String, Snap>,
     ap_view: BTreeMap<String, Vec<Snap>>,
     ids: BTreeMap<String, u32>,
+    /// destination id the table hands to the next new prefix (probed after every step): makes the
+    /// hidden state of the id allocator part of the canonical state
+    next_id: Option<u32>,
+    probe_src: Arc<Source>,
     /// oracle clauses currently false: a clause is reported only on the step that breaks it
     broken: BTreeSet<String>,
 }
@@ -421,6 +425,8 @@ impl Model for TableModel {
             best_view: BTreeMap::new(),
             ap_view: BTreeMap::new(),
             ids: BTreeMap::new(),
+            next_id: None,
+            probe_src: source(9, PeerRole::Ebgp, 0x0a000009),
             broken: BTreeSet::new(),
         }
     }
@@ -583,6 +589,22 @@ impl Model for TableModel {
             "C06" => self.check_c06(sys, &mut cur, &name),
             _ => self.check_c15(sys, &mut cur, &name),
         }
+        if self.oracle == "C06" {
+            // Probe the id allocator: a prefix no op uses is inserted and removed again (its
+            // notifications go nowhere).  The id it was given must not belong to a live
+            // destination, and it is part of the fingerprint: two states that look alike but
+            // would number the next prefix differently are different states.
+            let probe = prefix(240);
+            let _ = sys.t.insert(sys.probe_src.clone(), FAMILY, probe.clone(), 0, nh4(9), sys.pool[0].clone(), None, false, false, None, 0);
+            let dump = sys.t.collect_loc_rib_paths(&FAMILY);
+            sys.next_id = dump.iter().find(|c| c.net == probe).map(|c| c.dest_id);
+            if let Some(id) = sys.next_id {
+                if let Some(c) = dump.iter().find(|c| c.net != probe && c.dest_id == id) {
+                    cur.push(("C06/dest-id-duplicate/next-allocation".into(), format!("{name}: the next new prefix would be given dest_id {id}, which the live destination {} is using", c.net)));
+                }
+            }
+            let _ = sys.t.remove(sys.probe_src.clone(), FAMILY, probe, 0, None);
+        }
         // report a clause only on the step that breaks it (root cause), not on
         // every later state that inherits the damage
         let mut now = BTreeSet::new();
@@ -645,7 +667,7 @@ impl Model for TableModel {
             .map(|r| format!("{}:{}:{}:{:?}", r.net.nlri, sid(Arc::as_ptr(&r.source) as usize), r.net.path_id, r.nexthop.map(|n| n.addr())))
             .collect();
         reach.sort();
-        let _ = write!(s, "R{:?}", reach);
+        let _ = write!(s, "R{:?}N{:?}", reach, sys.next_id);
         let mut elig: Vec<String> = sys
             .t
             .collect_loc_rib_paths(&FAMILY)
